@@ -340,6 +340,7 @@ std::string run_case(const std::vector<std::string>& w)
    std::string prog = "prog", fileContent, envContent, line;
    bool haveFile = false, haveEnv = false, haveLine = false, wantOut = false;
    std::vector<int> defOrder;
+   int groupFlags = -1;
    std::vector<std::pair<std::string, std::string>> xfiles;
    std::vector<std::string> xdirs;
    std::vector<std::string> argvWords;
@@ -354,6 +355,7 @@ std::string run_case(const std::vector<std::string>& w)
          auto p = vf::split(tok, ':');
          members.push_back({ "", std::stoi(p.at(2).substr(2)), {}, {}, p.at(1) });
       }
+      else if (tok.rfind("GS:f=", 0) == 0) groupFlags = std::stoi(tok.substr(5));   // flags of the Groups singleton
       else if (tok.rfind("G:", 0) == 0)
       {
          useGroups = true;
@@ -418,6 +420,7 @@ std::string run_case(const std::vector<std::string>& w)
    try
    {
       if (useGroups) pa::Groups::reset();
+      if (useGroups && groupFlags >= 0) pa::Groups::instance(groupFlags);
       // the handlers are created in the order of the configuration; the arguments are defined member by member,
       // or - with "order:<member>,<member>,..." - in the given interleaving (each entry defines the next argument
       // of that member) after all handlers were created
